@@ -64,6 +64,8 @@ use rs_matter::Matter;
 mod c02_gen;
 #[path = "c02_cmd.rs"]
 mod c02_cmd;
+#[path = "c02_init.rs"]
+mod c02_init;
 
 const REPLY_WAIT_MS: u64 = 1500;
 /// address of a node that does not exist: peer of the filler sessions
@@ -103,6 +105,10 @@ struct Init<'a> {
 struct Shared {
     /// opcode of the next initiator datagram the network shall deliver twice
     dup_opcode: Cell<Option<u8>>,
+    /// opcode of the next initiator datagram the network shall lose (its MRP retransmission gets through)
+    drop_opcode: Cell<Option<u8>>,
+    /// the device's next payload-carrying datagram (its answer) is lost (its MRP retransmission gets through)
+    rdrop: Cell<bool>,
     /// ids of the filler sessions in the device's table
     fillers: RefCell<Vec<u32>>,
 }
@@ -112,12 +118,27 @@ struct DupPolicy(Rc<Shared>);
 impl Policy for DupPolicy {
     fn decide(&mut self, from: usize, _to: usize, bytes: &[u8], _seq: u64) -> Verdict {
         if from == 1 {
+            if let Some(want) = self.0.drop_opcode.get() {
+                if let Some((start, opcode)) = payload_start(bytes) {
+                    if opcode == want && start < bytes.len() {
+                        self.0.drop_opcode.set(None);
+                        return Verdict::Drop;
+                    }
+                }
+            }
             if let Some(want) = self.0.dup_opcode.get() {
                 if let Some((start, opcode)) = payload_start(bytes) {
                     if opcode == want && start < bytes.len() {
                         self.0.dup_opcode.set(None);
                         return Verdict::Dup;
                     }
+                }
+            }
+        } else if from == 0 && self.0.rdrop.get() {
+            if let Some((start, opcode)) = payload_start(bytes) {
+                if start < bytes.len() && opcode != OpCode::MRPStandAloneAck as u8 {
+                    self.0.rdrop.set(false);
+                    return Verdict::Drop;
                 }
             }
         }
@@ -174,8 +195,9 @@ fn observe(device: &Matter, sh: &Shared) -> String {
         }
         Ok(())
     });
+    let fs = device.with_state(|st| st.verif_parts().failsafe.is_armed());
     format!(
-        "w={} f={} m={} s={} adv={} tab=F:{},Fp:{},U:{},Up:{},R:{},P:{} enh={} disc={}",
+        "w={} f={} m={} s={} adv={} tab=F:{},Fp:{},U:{},Up:{},R:{},P:{} enh={} disc={} fs={}",
         w as u8,
         f.map(|x| x.to_string()).unwrap_or("-".into()),
         m as u8,
@@ -188,7 +210,8 @@ fn observe(device: &Matter, sh: &Shared) -> String {
         count("R"),
         count("P"),
         enh,
-        disc
+        disc,
+        fs as u8
     )
 }
 
@@ -336,14 +359,21 @@ async fn run_script<'a, C: Crypto>(
         let before = table(device, sh);
         let log0 = net.log_len();
         let mut harness_removed: Vec<u32> = Vec::new();
+        let own_opcode = match head {
+            "pbkdf" => Some(OpCode::PBKDFParamRequest as u8),
+            "pake1" => Some(OpCode::PASEPake1 as u8),
+            "pake3" => Some(OpCode::PASEPake3 as u8),
+            _ => None,
+        };
         if m.get("dup").map(|d| d == "1").unwrap_or(false) {
-            let opcode = match head {
-                "pbkdf" => Some(OpCode::PBKDFParamRequest as u8),
-                "pake1" => Some(OpCode::PASEPake1 as u8),
-                "pake3" => Some(OpCode::PASEPake3 as u8),
-                _ => None,
-            };
-            sh.dup_opcode.set(opcode);
+            sh.dup_opcode.set(own_opcode);
+        }
+        // `drop=1`: the first transmission of this op's datagram is lost; `rdrop=1`: the device's answer is lost once
+        if m.get("drop").map(|d| d == "1").unwrap_or(false) {
+            sh.drop_opcode.set(own_opcode);
+        }
+        if m.get("rdrop").map(|d| d == "1").unwrap_or(false) && own_opcode.is_some() {
+            sh.rdrop.set(true);
         }
         let res: String = match head {
             "open" => match device.open_basic_comm_window(num(&m, "t") as u16, crypto, &()) {
@@ -415,6 +445,45 @@ async fn run_script<'a, C: Crypto>(
                         harness_removed.push(sid);
                         r
                     }
+                }
+            }
+            "cmdrevoke" => {
+                // the command `RevokeCommissioning` through the real `AdminCommHandler`, on an exchange of a session that
+                // is neither CASE nor PASE (session and exchange exist only for the duration of the call)
+                let slot = device.with_state(|st| {
+                    st.verif_sessions_mut().add(9, false, addr_of(NOWHERE), None, &TEST_DEV_DET).ok().and_then(|sess| {
+                        let id = sess.id();
+                        sess.verif_add_exch(39_998, true).map(|idx| (id, idx))
+                    })
+                });
+                match slot {
+                    None => "skip".into(),
+                    Some((sid, idx)) => {
+                        let r = {
+                            let ex = Exchange::verif_new(device, sid, idx);
+                            let r = c02_cmd::invoke(device, crypto, &ex, &c02_cmd::Cmd::Revoke);
+                            core::mem::forget(ex);
+                            r
+                        };
+                        device.with_state(|st| {
+                            st.verif_sessions_mut().remove(sid);
+                        });
+                        harness_removed.push(sid);
+                        r
+                    }
+                }
+            }
+            "fspoll" => {
+                // `InteractionModel::check_timeouts`: the fail-safe timer (the window's own timer is `poll`)
+                let kv = device.kv(rs_matter::persist::DummyKvBlobStore);
+                let nets = rs_matter::dm::clusters::net_comm::DummyNetworkAccess;
+                let r = device.with_state(|st| {
+                    let p = st.verif_parts();
+                    p.failsafe.check_failsafe_timeout(p.fabrics, p.sessions, &nets, &kv, None, || {}, |_, _| {})
+                });
+                match r {
+                    Ok(_) => "-".into(),
+                    Err(e) => format!("err:{:?}", e.code()),
                 }
             }
             "revoke" => match device.close_comm_window(&()) {
@@ -676,6 +745,8 @@ async fn run_script<'a, C: Crypto>(
             _ => "skip".into(),
         };
         sh.dup_opcode.set(None);
+        sh.drop_opcode.set(None);
+        sh.rdrop.set(false);
         // (Before repo fix `e29fea6` a stray one-byte datagram was injected here: `Transport::accept_if` used to
         // evaluate its predicate on the stale headers of the last datagram at every poll and thereby refreshed
         // `last_use` of that datagram's session, which kept it from being evicted. No longer needed.)
@@ -708,7 +779,19 @@ async fn run_script<'a, C: Crypto>(
         ev.sort();
         // an evicted filler is no longer the harness' to remove
         sh.fillers.borrow_mut().retain(|id| after.iter().any(|(i2, _)| i2 == id));
-        let mut line = format!("t={} {} | {} ev={}", t0, res, observe(device, sh), if ev.is_empty() { "-".to_string() } else { ev.join(",") });
+        // a lost first transmission: the message reached the device with the retransmission - that is the instant of the step
+        let t_eff = match (m.get("drop").map(|d| d == "1").unwrap_or(false), own_opcode) {
+            (true, Some(opc)) => net
+                .log()
+                .iter()
+                .skip(log0)
+                .filter(|e| e.from == 1 && e.verdict != Verdict::Drop && payload_start(&e.bytes).map(|(st, o)| o == opc && st < e.bytes.len()).unwrap_or(false))
+                .map(|e| e.t_ms)
+                .next()
+                .unwrap_or(t0),
+            _ => t0,
+        };
+        let mut line = format!("t={} {} | {} ev={}", t_eff, res, observe(device, sh), if ev.is_empty() { "-".to_string() } else { ev.join(",") });
         for n in notes.borrow_mut().drain(..) {
             line.push(' ');
             line.push_str(&n);
@@ -732,11 +815,14 @@ fn payload_start(bytes: &[u8]) -> Option<(usize, u8)> {
 }
 
 fn run_case(out: &mut Out, case: &Case) {
+    if case.kind.split_whitespace().next() == Some("init") {
+        return c02_init::run_init_case(out, case);
+    }
     out.case(case.id, &case.kind);
     let m = kv(&case.kind);
     let pw = (num(&m, "pw") as u32).to_le_bytes();
     let comm = BasicCommData { password: Spake2pVerifierPassword::new_from_ref(Spake2pVerifierPasswordRef::new(&pw)), discriminator: 3840 };
-    let sh = Rc::new(Shared { dup_opcode: Cell::new(None), fillers: RefCell::new(Vec::new()) });
+    let sh = Rc::new(Shared { dup_opcode: Cell::new(None), drop_opcode: Cell::new(None), rdrop: Cell::new(false), fillers: RefCell::new(Vec::new()) });
     let net = SimNet::new(2, Box::new(DupPolicy(sh.clone())));
     let device = Matter::new(&TEST_DEV_DET, comm.clone(), &TEST_DEV_ATT, 0);
     let ctrl = Matter::new(&TEST_DEV_DET, comm, &TEST_DEV_ATT, 0);
